@@ -327,6 +327,19 @@ func runC07(rc *RunCtx) {
 		}
 		rc.S.Stats["restart_after_crash"]++
 	}
+	if op == "rotate" && !crashed && fired {
+		// a storage error inside the rotation: the operator restarts the mint afterwards; the keysets must
+		// then be exactly the old or exactly the new set as well
+		mid := snapKeysets(W, "A")
+		if mid.activeCount() != 1 {
+			vio("S", "active_count", "%d active keysets right after a failed rotation", mid.activeCount())
+		}
+		if err := W.RestartMint("A", nil); err != nil {
+			vio("S", "load_fails", "LoadMint fails after a rotation that met a storage error: %v", err)
+			return
+		}
+		rc.S.Stats["restart_after_db_error"]++
+	}
 	after := snapKeysets(W, "A")
 	if op == "rotate" {
 		// exactly the old set or exactly the new set (old + one new active keyset)
